@@ -186,9 +186,16 @@ func c09IsVal(o object.PanObject, v int64) bool {
 	return isInt(o, v)
 }
 
+// c09FirstKind >= 0 fixes the kind of the next key made (shard of the heaviest jobs).
+var c09FirstKind = -1
+
 func c09NewKey(h *H, name string) c09Key {
 	var k c09Key
-	k.kind = rt.Choice(6)
+	if c09FirstKind >= 0 {
+		k.kind, c09FirstKind = c09FirstKind, -1
+	} else {
+		k.kind = rt.Choice(6)
+	}
 	switch k.kind {
 	case 0:
 		k.i = rt.Int64()
@@ -223,6 +230,7 @@ func c09NewKey(h *H, name string) c09Key {
 // solver decides which keys collide.
 func H_C09_map() {
 	n, e := rt.Param(0), rt.Param(1)
+	c09FirstKind = rt.Param(3) // -1: the first key's kind is a solver choice like the others
 	h := NewH()
 	type ent struct {
 		k c09Key
